@@ -14,6 +14,10 @@ SPEC = dict(
              n=dict(quick=150, thorough=12000),
              ev=dict(requires=["V.lib.Bytes", "V.models.Notices"], case_type="Notices.case",
                      mismatch="Notices.mismatch", monitor="Notices.monitor_fail")),
+        dict(name="wait", kind="main", pkg="./zzverif/c08/wait",
+             n=dict(quick=80, thorough=3000), timeout=dict(quick=300, thorough=1800),
+             ev=dict(requires=["V.lib.Bytes", "V.models.Notices"], case_type="Notices.wcase",
+                     mismatch="Notices.wmismatch", monitor="Notices.wmonitor_fail")),
         dict(name="api", kind="test", pkg="./daemon", run="TestVerifC08Api",
              n=dict(quick=120, thorough=8000),
              ev=dict(requires=["V.lib.Bytes", "V.models.Notices"], case_type="Notices.acase",
@@ -32,6 +36,12 @@ SPEC = dict(
           "1-4 simulated clients with random user/types/keys filters following the cursor protocol (After := greatest "
           "last-repeated received, read from the JSON form). Observed after every op: the added notice (id, user, type, key, "
           "last-repeated, last-occurred, occurrences) or error; the list returned to the client. "
+          "wait: real goroutines blocked in State.WaitNotices: two scripted and random histories of AddNotice (mocked clock, "
+          "same tick / backwards, repeat-after), WaitNotices calls with generated filters (After around the current stamps), "
+          "context cancellations and restarts; a call is known to be parked in sync.Cond.Wait before the next step (lock "
+          "hand-over); after every step the real Notices(filter) of each blocked call decides whether it has to return now "
+          "(then awaited, 3 s limit => recorded as stuck). Observed per step: calls that returned (list / error / stuck), "
+          "calls still blocked with the real match count. "
           "api: daemon.getNotices called in-package on a state filled through AddNotice: the complete cross product "
           "uid {0,1000,1001,unidentifiable} x user-id {absent,1000,1001,0,x,`1000,1001`,empty} x users {absent,all,x,empty} on a "
           "fixed state, plus random states and requests (uid, user-id in 16 valid/invalid spellings, users, types/keys comma "
@@ -42,13 +52,14 @@ SPEC = dict(
     trusted_base=[
         "translators/noticetypes.go (go/ast): prints the case list of NoticeType.Valid, maxNoticeKeyLength and the non-test places that set AddNoticeOptions.Time",
         "hand-written model coq/models/Notices.v of overlord/state/notices.go (AddNotice, ValidateNotice, NoticeFilter.matches, Notices) and of the user/filter logic of daemon/api_notices.go getNotices (main snapd socket only), tied by the differential runs (harness/overlay/zzverif/c08/main.go, harness/overlay/daemon/zz_verif_c08_test.go)",
+        "the `wait` driver decides which blocked calls must return after a step by asking the real State.Notices(filter) (not the model); blocked requests are cancelled at a restart (in production they die with the process)",
         "the polling-client protocol (After := greatest last-repeated received) is a model of the client described in AddNotice's comment; no client in the repository implements it",
         "sort.Slice modelled as insertion sort; for equal last-repeated times (only possible with explicit Time) answers are compared after sorting by (last-repeated, id)",
         "time.Time modelled as integer nanoseconds relative to a base instant; zero time as None; encoding/json of time.Time (RFC3339Nano) trusted to keep nanoseconds",
         "daemon driver encodes ucrednet's RemoteAddr format (pid=..;uid=..;socket=..;) to choose the request uid; ucrednetGet itself is not modelled",
     ],
     assumptions=[
-        "PARTIAL: waiter wake-up is proved only in state-predicate form (C08_waiter_enabled_partial, C08_no_missed_wakeup); that sync.Cond.Broadcast wakes the goroutine blocked in WaitNotices is Go runtime behaviour and is neither modelled nor tested here",
+        "waiter clause: the logical half is proved for all histories of additions, WaitNotices calls, context timeouts and restarts (C08_waiters_never_miss, C08_waiter_enabled, C08_wait_returns_sound); that sync.Cond.Broadcast makes every blocked call re-evaluate its condition is Go runtime behaviour: modelled by `recheck`, not verified; the `wait` driver exercises it with real goroutines as supporting evidence (a call that is not woken is recorded as stuck and fails the monitor)",
         "additions use the server clock (AddNoticeOptions.Time unset): with an explicit Time the property is false (C08_explicit_time_refuted); the translator checks on every run that no non-test code sets it (C08_no_explicit_time_call_site)",
         "notice expiry (7 days after last-occurred, evaluated against the real wall clock in flattenNotices/Prune) is not modelled; drivers keep every mocked instant within hours of now",
         "a client starts without a cursor and only ever uses a last-repeated time it received as After",
